@@ -4,6 +4,12 @@ package cisco
 
 // Contracts for the deductive checker in /verif (comment-only file).
 
+// addBanner (closure 1 of LoginEnable): what is added to the text the banner
+// pattern is matched against is the answer without its last line - nothing at
+// all for an answer that consists of a prompt only.
+//vc:func (*State).LoginEnable$1
+//vc:  inline
+//vc:  ensures[C06] @lastLineOfAnswerDropped bannerLines == old(bannerLines) + out[:strings.LastIndex(out, "\n") + 1]
 //vc:func (*State).LoginEnable
 // the text is an answer / a shell command, not one of the two Cisco mode commands
 //vc:  hypothesis[C11] pass != "configure terminal" && pass != "end"
